@@ -11,7 +11,11 @@
    hist carries the expectations so that TLC-generated request sequences can be
    replayed on a real connection and compared.                                   *)
 EXTENDS Naturals, Sequences, FiniteSets, TLC, Json
-CONSTANTS MaxHist, EmitAt
+CONSTANTS MaxHist, EmitAt,
+          Carrier    \* "rtsp": RTSP over TCP or over WebSocket (service/rtsp)
+                     \* "wsp":  RTSP requests wrapped in the WSP control channel, media on the WSP data channel (service/wsp):
+                     \*         a player-only carrier - nothing can be announced or recorded, transports are interleaved TCP
+                     \*         only, and PAUSE is a legal method while playing (delivery stops until the next PLAY)
 
 Reqs == {"OPTIONS", "DESCRIBE_ok", "DESCRIBE_missing", "ANNOUNCE_ok", "ANNOUNCE_badsdp", "ANNOUNCE_noctype",
          "SETUP_v_tcp_play", "SETUP_a_tcp_play", "SETUP_v_udp_play", "SETUP_v_tcp_record", "SETUP_a_tcp_record",
@@ -26,11 +30,31 @@ VARIABLES st,    \* "init" | "ready" | "playing" | "recording" | "closed" | "ope
           sdp,   \* "none" | "play" (DESCRIBE succeeded) | "record" (ANNOUNCE succeeded)
           tr,    \* transport of the last successful SETUP: "none" | "tcp" | "udp"
           dirty, \* a SETUP has been refused in this session: the statement does not say what later SETUPs must answer
+          paused, \* wsp only: PAUSE was accepted while playing and no PLAY since
           hist
-vars == <<st, sdp, tr, dirty, hist>>
+vars == <<st, sdp, tr, dirty, paused, hist>>
 
 (* ---- what the statement requires for request r in the current state ---------- *)
+ExpWsp(r) ==
+  CASE r = "OPTIONS" -> "ok"
+    [] r = "TEARDOWN" -> "ok"
+    [] st = "open" -> "any"
+    [] r = "PAUSE" -> IF st = "playing" THEN "ok" ELSE "refuse"
+    [] r \in {"GET_PARAMETER", "FOO", "RECORD", "ANNOUNCE_ok", "ANNOUNCE_badsdp", "ANNOUNCE_noctype"} -> "refuse"     \* never legal on this carrier
+    [] r \in {"DESCRIBE_ok", "DESCRIBE_missing"} ->
+         IF st # "init" THEN "455" ELSE IF r = "DESCRIBE_ok" THEN "ok" ELSE "refuse"
+    [] IsSetup(r) ->
+         IF st = "playing" THEN "455"
+         ELSE IF dirty # "no" THEN "any"
+         ELSE IF sdp = "none" \/ r = "SETUP_v_bad" THEN "refuse"
+         ELSE IF SetupMode(r) = "record" \/ SetupTr(r) # "tcp" \/ r = "SETUP_a_mcast_play" THEN "refuse"
+         ELSE "ok"
+    [] r = "PLAY" -> IF st \in {"ready", "playing"} /\ sdp = "play" /\ tr # "none"
+                     THEN (IF dirty # "no" /\ st = "ready" THEN "any" ELSE "ok")
+                     ELSE "455"
+
 Exp(r) ==
+  IF Carrier = "wsp" THEN ExpWsp(r) ELSE
   CASE r = "OPTIONS" -> "ok"
     [] r = "TEARDOWN" -> "ok"
     [] st = "open" -> "any"
@@ -70,26 +94,29 @@ Do(r) ==
        [] r = "ANNOUNCE_ok" -> sdp' = "record" /\ UNCHANGED <<st, tr>>
        [] IsSetup(r) -> st' = "ready" /\ tr' = SetupTr(r) /\ sdp' = sdp
        [] r = "PLAY" -> st' = "playing" /\ UNCHANGED <<sdp, tr>>
+       [] r = "PAUSE" -> UNCHANGED <<st, sdp, tr>>                       \* wsp: still playing, delivery suspended
        [] r = "RECORD" -> st' = "recording" /\ UNCHANGED <<sdp, tr>>
   \* remembers WHICH request was refused last: a refused SETUP may leave a transport behind, and a refused DESCRIBE /
   \* ANNOUNCE of another path may change the path the session remembers (the statement says the connection stays
   \* usable and that a 455 changes nothing; it does not say a 404 / 400 leaves the remembered description alone)
   /\ dirty' = (IF e = "refuse" /\ ((IsSetup(r) /\ sdp # "none") \/ (r \in {"DESCRIBE_missing", "ANNOUNCE_badsdp", "ANNOUNCE_noctype"} /\ sdp # "none"))
                THEN r ELSE dirty)
+  /\ paused' = (IF Carrier = "wsp" /\ e = "ok" /\ r = "PAUSE" THEN TRUE
+                ELSE IF e = "ok" /\ r = "PLAY" THEN FALSE ELSE paused)
   /\ hist' = Append(hist, [req |-> r, exp |-> e,
-                           frames |-> (st' = "playing" /\ tr' = "tcp"),      \* interleaved media allowed after this answer
+                           frames |-> (st' = "playing" /\ tr' = "tcp" /\ ~paused'),      \* interleaved media allowed after this answer
                            published |-> (st' = "recording"),                 \* the announced path resolves to a stream
                            consuming |-> (st' = "playing")])                  \* the session holds a consumer of /live
 
-Init == st = "init" /\ sdp = "none" /\ tr = "none" /\ dirty = "no" /\ hist = <<>>
+Init == st = "init" /\ sdp = "none" /\ tr = "none" /\ dirty = "no" /\ paused = FALSE /\ hist = <<>>
 Next == /\ Len(hist) < MaxHist /\ st # "closed"
         /\ \E r \in Reqs : Do(r)
 
 Emit == (Len(hist) >= EmitAt \/ (st = "closed" /\ Len(hist) > 0)) => PrintT(<<"@H", ToJson(hist)>>)
-View == <<st, sdp, tr, dirty>>
+View == <<st, sdp, tr, dirty, paused>>
 EmitEdge == PrintT(<<"@H", ToJson(hist')>>)
 
 (* ---- the statement as invariants of this automaton ------------------------------ *)
 PlayingOnlyViaDescribeSetupPlay == st = "playing" => (sdp = "play" /\ tr # "none")
-RecordingOnlyViaAnnounceSetupRecord == st = "recording" => (sdp = "record" /\ tr = "tcp")
+RecordingOnlyViaAnnounceSetupRecord == st = "recording" => (sdp = "record" /\ tr = "tcp" /\ Carrier # "wsp")
 ================================================================================
